@@ -105,3 +105,14 @@ prop("C08",
          dict(test="^TestC08_(Gen|Corpus)$", quick=dict(checks=6000), thorough=dict(checks=60000, shards=16, timeout=3000)),
          dict(test="^XXX$", thorough_only=True, thorough=dict(fuzz="^FuzzC08$", fuzztime="240s", timeout=900)),
      ])
+
+prop("C09",
+     level_text="robustness search over every public entry point (parser.Parse, printer.Print, ValidateDocument with each rule alone and all, PlanQuery+ExecutePlan / Execute / ExecuteSubscription on UNVALIDATED ASTs, Do, Subscribe, PlanCache.Get with and without normalisation): no panic, returns within a watchdog proportional to input size, result JSON-serialisable, no data after a parse/validation failure, an error whenever data is absent, subscription channels deliver and close",
+     note="fixed 'kitchen' schema (every type kind, cyclic types, mutation and subscription roots); watchdog = 11 x (5 s + 1 ms/byte), a hit is 'inconclusive' unless it persists; native fuzzing only in the thorough tier (its saved crasher is the reproducible unit)",
+     technique="fuzzing: rapid-generated structured inputs + corpus replay, go test -fuzz in thorough; crash / hang / result-shape oracle",
+     rule="inputs: grammatical sentences over the schema's vocabulary (optionally one token mutation, hostile layouts), token soup, a catalogue of ~110 validation-breaking documents (cyclic fragments of length 1-3 incl. through fields, unknown types/fields/fragments, type-system definitions mixed in, missing/duplicate operations, malformed type references, 60-200 deep nesting, 3000 siblings, 2000-element and 60-deep literals), random bytes; operation names and variable maps (incl. wrong kinds, 1e400, non-object JSON) from pools. Non-trivial = parsed successfully or failed after more than a few tokens; distinct by (text, operation name, variables).",
+     assumptions=["resolvers are the harness's (World with salt 7, 1/6 nulls); subscription source = 2 events then close"],
+     runs=[
+         dict(test="^TestC09_(Gen|Corpus)$", quick=dict(checks=1200), thorough=dict(checks=8000, shards=16, timeout=3000)),
+         dict(test="^XXX$", thorough_only=True, thorough=dict(fuzz="^FuzzC09$", fuzztime="300s", timeout=1200)),
+     ])
